@@ -26,6 +26,9 @@ def run(ctx):
     inputs = open(os.path.join(ctx.work, "inputs.txt")).read().splitlines()
     # --- the property itself evaluated on the implementation (failing-input search)
     def describe(f):
+        if f.get("twin"):
+            return "%s: `%s` versus `%s` at %s: %s / %s %s" % (f.get("kind"), f.get("input", "").replace("\n", " | ")[:300], f.get("twin", "").replace("\n", " | ")[:300],
+                                                           json.dumps(f.get("assignment")), f.get("first"), f.get("second"), f.get("error", ""))
         return "%s: input `%s` at %s" % (f.get("kind"), f.get("input"), json.dumps(f.get("assignment")))
     new = C.triage_failures(ctx, rep["oracle_failures"], describe)
     # --- correspondence model vs implementation
@@ -50,11 +53,12 @@ def run(ctx):
         "samples": rep["samples"],
         "exhaustive": False,
         "input_distribution": {k: v for k, v in cnt.items() if k.startswith("size.") or k.startswith("stream.")},
+        "respelled_twin_programs": {k: v for k, v in cnt.items() if k.startswith("twins.")},
         "points_evaluated_on_impl": cnt.get("points_evaluated", 0),
         "oracle_failures_total": cnt.get("oracle_failures_total", 0),
         "oracle_failures_unlisted": new,
         "correspondence_mismatches": len(fails),
     })
     assumptions = ["typed-semantics hypothesis of C10_simplify_sound (non-literal and/or operands are 0/1-valued); the unconditional statement is refuted (F17)",
-                   "respelling clause (twins through the linearizer) is checked by C01's machinery, not here"]
+                   "respelling clause: pairs of programs that differ only in how constants are written (literal, sum, difference, named, negated, product; constant on either side of *; implicit product; divisor; right-hand side) go through the whole compiler and their linear models are compared point by point on a grid (feasibility of the projection and best objective of an extension); the compiler core itself is tied to the model by C01"]
     return C.finish(ctx, "proof", cov, assumptions)
